@@ -90,10 +90,17 @@ def is_nontrivial(out):
     return out["k"] == "rows" and len(out["rows"]) >= 1
 
 
-def run_family(ctx, family, cases, cfgs, known, *, tier_name, env=None, allowed_devs=None, corpus=True):
-    """runs cases under cfgs, judges with TLC, classifies rejects.  known: {hash: {cfg: label}}"""
-    outs = sqlloop.run_cases(ctx, cases, cfgs, f"{tier_name}-{family}", env=env)
-    rej = sqlloop.judge(ctx, cases, outs, f"{tier_name}-{family}")
+def run_family(ctx, family, cases, cfgs, known, *, tier_name, env=None, allowed_devs=None, corpus=True, cross=None, envname=""):
+    """runs cases under cfgs, judges with TLC, classifies rejects.  known: {hash: {cfg: label}}
+    cross(cases, outs, cfgs) -> [(case, cfg_index, label, why)]: extra cross-configuration rules of a property."""
+    if envname:
+        cfgs = [dict(c, name=f"{c['name']}@{envname}") for c in cfgs]
+    outs = sqlloop.run_cases(ctx, cases, cfgs, f"{tier_name}-{family}{('-' + envname) if envname else ''}", env=env)
+    rej = sqlloop.judge(ctx, cases, outs, f"{tier_name}-{family}{('-' + envname) if envname else ''}")
+    if cross:
+        for (c, ci, lab, why) in cross(cases, outs, cfgs):
+            o = next(o for o in outs if o["id"] == c["id"])
+            rej.append({"case": c, "cfg": ci, "out": o["outs"][ci], "devs": [], "want": [], "meta": o["meta"][ci], "label": lab, "why": why})
     nrows = nerr = 0
     nontriv = ctx.cov.setdefault("_nontrivial_hashes", set())
     byid = {c["id"]: c for c in cases}
@@ -113,7 +120,7 @@ def run_family(ctx, family, cases, cfgs, known, *, tier_name, env=None, allowed_
         c = r["case"]
         h = case_hash(c)
         cfgname = cfgs[r["cfg"]]["name"]
-        lab = label_of(r)
+        lab = r.get("label") or label_of(r)
         fid = f"{ctx.pid}/{lab}"
         replay = {"kind": "sql", "family": family, "case": c, "cfg": cfgs[r["cfg"]], "env": env or {}, "label": lab,
                   "got": r["out"], "want_example": r["want"]}
